@@ -8,7 +8,8 @@ character recording of `whoosh.formats` and of `highlight.Formatter.format_fragm
 * `analysis/filters.py`: `LowercaseFilter`, `StripFilter`, `PassFilter`, `StopFilter.__call__`
   (with `renumber`, `minsize`, `maxsize`, `removestops`), `CharsetFilter` / `ReverseTextFilter` /
   `SubstitutionFilter` (a string function as parameter), `MultiFilter.__call__` (the filter is chosen
-  by the stream's `mode`);
+  by the stream's `mode`), `DelimitedAttributeFilter.__call__` (text and character range cut at the
+  delimiter; the attribute value itself is not modelled);
 * `analysis/morph.py`: `StemFilter.__call__` (the stemming function as parameter);
 * `analysis/ngrams.py`: `NgramTokenizer.__call__`, `NgramFilter.__call__` (both modes, `at`);
 * `analysis/intraword.py`: `BiWordFilter.__call__`;
@@ -261,6 +262,22 @@ def mapText (fn : Str → Str) (ts : List Token) : List Token :=
 def stemFilter (fn : Str → Str) (ignore : List Str) (ts : List Token) : List Token :=
   ts.map fun t => if t.stopped || ignore.contains t.text then t else { t with text := fn t.text }
 
+/-- `str.find(sub)`: index of the first occurrence (`none` for -1; `"".find("")` is 0) -/
+def findSub (sub : Str) : Str → Option Nat
+  | [] => if sub = [] then some 0 else none
+  | c :: rest => if sub.isPrefixOf (c :: rest) then some 0 else (findSub sub rest).map (· + 1)
+
+/-- `DelimitedAttributeFilter(delimiter)` (analysis/filters.py `DelimitedAttributeFilter.__call__`):
+    a token whose text contains the delimiter keeps the text before its first occurrence and gives
+    up the rest of its character range (`t.endchar -= len(t.text) - pos`, with Python's integers:
+    no truncation at 0); the attribute it sets from the rest (`type_(text[pos + 1:])`, which may
+    raise for a type other than `str`) is not part of the modelled `Token` -/
+def delimited (delim : Str) (ts : List Token) : List Token :=
+  ts.map fun t =>
+    match findSub delim t.text with
+    | some p => { t with text := t.text.take p, endchar := t.endchar - (t.text.length - p) }
+    | none => t
+
 inductive Filter
   | lowercase | strip | pass
   | stop (c : StopCfg)
@@ -270,6 +287,8 @@ inductive Filter
   | stem (fn : Str → Str) (ignore : List Str)
   /-- `MultiFilter(index=..., query=...)`; a mode without entry gets `default_filter = PassFilter()` -/
   | multi (index query : Filter)
+  /-- `DelimitedAttributeFilter(delimiter=delim)` -/
+  | delimited (delim : Str)
   deriving Inhabited
 
 def runTokenizer (tk : Tokenizer) (mode : Mode) (text : List CChar) : List Token :=
@@ -288,6 +307,7 @@ def runFilter (tb : Tables) (mode : Mode) (f : Filter) (ts : List Token) : List 
   | .biword sep => biword sep ts
   | .mapText fn => mapText fn ts
   | .stem fn ignore => stemFilter fn ignore ts
+  | .delimited d => delimited d ts
   | .multi fi fq =>
     -- MultiFilter.__call__: "only selects on the first token"; no token at all: nothing
     match ts with
